@@ -257,6 +257,25 @@ class SInt:
     __rmul__ = __mul__
     def __neg__(self): return SInt(-self.e)
 
+    def _divmod(self, o, which, reflected=False):
+        """floor division / modulo for a positive divisor (z3's integer div/mod agree with Python's there); a symbolic divisor is
+        branched on its sign and only the positive case is supported"""
+        if not _is_num(o):
+            return NotImplemented
+        a, b = (_as_int(_ze(o)), self.e) if reflected else (self.e, _as_int(_ze(o)))
+        divisor = self if reflected else o
+        if isinstance(divisor, (SInt, SBool)):
+            if not bool(divisor > 0):
+                raise Unsupported("division by a non-positive symbolic integer")
+        elif int(divisor) <= 0:
+            raise Unsupported("division by a non-positive integer")
+        return SInt(a / b if which == "div" else a % b)
+
+    def __floordiv__(self, o): return self._divmod(o, "div")
+    def __rfloordiv__(self, o): return self._divmod(o, "div", True)
+    def __mod__(self, o): return self._divmod(o, "mod")
+    def __rmod__(self, o): return self._divmod(o, "mod", True)
+
     def _cmp(self, o, f):
         if not _is_num(o):
             return NotImplemented
